@@ -256,7 +256,10 @@ def one(rec, hub, seed, tier, i, tmpdir):
         sdir = os.path.join(tmpdir, f"stocks_{i}_{int(with_io)}")
         audit_on()
         try:
-            ex.export_mfa_stocks_to_csv(mfa, as_path(sdir), with_in_and_out=with_io)
+            if i % 3 == 1:
+                ex.export_mfa_stocks_to_csv(mfa, as_path(sdir), with_io)  # the flag by position
+            else:
+                ex.export_mfa_stocks_to_csv(mfa, as_path(sdir), with_in_and_out=with_io)
             err = None
         except Exception as e:
             err = e
